@@ -624,6 +624,22 @@ func c09Errors(ctx *core.Ctx, dotu bool) core.Result {
 		if e2 == nil {
 			res.Violate("C09;wrong-type-as-success", "a reply of the wrong type was returned to the caller as success", nil)
 		}
+		// … and so is the request itself coming back (same type, same tag)
+		f3 := s.fid(peer.EchoFid + i)
+		var e3 error
+		switch i % 4 {
+		case 0:
+			_, e3 = s.c.Stat(f3)
+		case 1:
+			e3 = s.c.Remove(f3) // (Clunk of a fid the client never walked sends nothing)
+		case 2:
+			_, e3 = s.c.Read(f3, 0, 10)
+		case 3:
+			_, e3 = s.c.Write(f3, []byte("abc"), 0)
+		}
+		if e3 == nil {
+			res.Violate("C09;request-echoed-as-success", "the peer sent the request back (a T-message with the call's tag) and the call returned success", nil)
+		}
 		// and the connection keeps working
 		if msg := s.do(call{kind: "read", fidn: 777 + i, offset: uint64(i), count: 33}); msg != "" {
 			res.Violate("C09;wrong-result;after-error", msg, nil)
